@@ -25,7 +25,7 @@ RULE = (
     "agent: constant, cyclic or reward-adaptive script, or the real MABEpsilonGreedy; 3 samplers + optional supplied Halton). "
     "Controlled mode enumerates every schedule of the calibration thread and the agent threads at the synchronisation points "
     "(queue put/get/empty/qsize, session-flag read/write, thread start/join/exit) with at most c preemptions (quick c=2, "
-    "thorough c=3) and adds seeded random schedules without bound; free-running mode repeats cases on real threads with "
+    "thorough c=3, c=4 for shapes of at most 4 batches) and adds seeded random schedules without bound; free-running mode repeats cases on real threads with "
     "LINE-level yield/sleep injection. Oracle on the event log: S1 consumed actions are an in-order prefix of the session's "
     "policy results with at most one left over; S2 learn exactly once per completed chosen batch, in order, with that action "
     "and the reference relative-improvement reward of that batch, never for an unexecuted action; S3 the sampler that ran is "
@@ -313,8 +313,8 @@ def case_controlled(desc, ctx, out):
     total = sum(desc["shape"])
     losses = loss_sequence(desc["loss"], total, rng)
     c = out["counters"]
-    bound = 2 if ctx.tier == "quick" else 3
-    cap = 2500 if ctx.tier == "quick" else 40000
+    bound = 2 if ctx.tier == "quick" else (4 if total <= 4 else 3)
+    cap = 2500 if ctx.tier == "quick" else 120000
     projections = {}
     nsched = 0
     first_bad = None
